@@ -303,3 +303,83 @@ def for_loops(root):
                 break
         out.append({"iter": it, "pat": pat, "body": body, "node": n, "loop": loop})
     return out
+
+
+NEXT_CALLS = ("serde_core::de::SeqAccess::next_element", "serde_core::de::MapAccess::next_key", "serde_core::de::MapAccess::next_entry",
+              "serde_core::de::SeqAccess::next_element_seed", "serde_core::de::MapAccess::next_key_seed")
+
+
+def _next_call(e):
+    """the next_element()/next_key() call if e is `<access>.next_*()?`, else None"""
+    e = strip_block(e)
+    if e.get("k") != "try":
+        return None
+    c = strip_block(e["e"])
+    return c if c.get("callee") in NEXT_CALLS else None
+
+
+def consuming_loop(n):
+    """recognise a loop whose only way to stop (besides `?`) is the container being exhausted:
+         while let Some(p) = a.next()? { body }
+         loop { match a.next()? { Some(p) => body, None => break } }
+         loop { let Some(p) = a.next()? else { break }; body.. }
+    returns dict(pat, body (list of nodes), next (call node), tryn (the `?` node)) or None"""
+    if n.get("k") != "loop":
+        return None
+    inner = strip_block(n["body"])
+    stmts = []
+    if inner.get("k") == "block":
+        stmts = list(inner.get("stmts", []))
+        tail = inner.get("expr")
+    else:
+        tail = inner
+    # shape A (while let) and shape B (match) as the only expression of the loop body
+    if not stmts and tail is not None:
+        t = strip_block(tail)
+        if t.get("k") == "if" and "else" in t:
+            c = strip_block(t["cond"])
+            if c.get("k") == "letexpr" and pat_ctor(c["pat"]) == "core::option::Option::Some" and _next_call(c["init"]) is not None:
+                els = strip_block(t["else"])
+                if els.get("k") == "block":
+                    inner_e = [s.get("e") for s in els.get("stmts", [])] + ([els["expr"]] if "expr" in els else [])
+                    els = strip_block(inner_e[0]) if len(inner_e) == 1 and inner_e[0] is not None else els
+                if els.get("k") == "break":
+                    pats = c["pat"].get("pats") or [f["pat"] for f in c["pat"].get("fields", [])]
+                    return {"pat": pats[0] if pats else None, "body": [t["then"]], "next": _next_call(c["init"]), "tryn": strip_block(c["init"])}
+        if t.get("k") == "match" and _next_call(t["scrut"]) is not None and len(t["arms"]) == 2:
+            some = [a for a in t["arms"] if pat_ctor(a["pat"]) == "core::option::Option::Some"]
+            none = [a for a in t["arms"] if pat_ctor(a["pat"]) == "core::option::Option::None" or pat_is_catchall(a["pat"])]
+            if len(some) == 1 and len(none) == 1 and strip_block(none[0]["body"]).get("k") == "break":
+                p = some[0]["pat"]
+                pats = p.get("pats") or [f["pat"] for f in p.get("fields", [])]
+                return {"pat": pats[0] if pats else None, "body": [some[0]["body"]], "next": _next_call(t["scrut"]), "tryn": strip_block(t["scrut"])}
+    # shape C: let-else first
+    if stmts and stmts[0].get("k") == "let" and "els" in stmts[0] and pat_ctor(stmts[0]["pat"]) == "core::option::Option::Some" and _next_call(stmts[0].get("init", {})) is not None:
+        els = stmts[0]["els"]
+        only = [s.get("e") for s in els.get("stmts", [])] + ([els["expr"]] if "expr" in els else [])
+        if len(only) == 1 and only[0] is not None and strip_block(only[0]).get("k") == "break":
+            p = stmts[0]["pat"]
+            pats = p.get("pats") or [f["pat"] for f in p.get("fields", [])]
+            body = [s for s in stmts[1:]] + ([tail] if tail is not None else [])
+            return {"pat": pats[0] if pats else None, "body": body, "next": _next_call(stmts[0]["init"]), "tryn": strip_block(stmts[0]["init"])}
+    return None
+
+
+def loop_exits(body_nodes):
+    """break / return nodes in a loop body that belong to this loop level (closures and nested loops excluded for break)"""
+    out = []
+
+    def go(n, nested):
+        k = n.get("k")
+        if k == "closure":
+            return
+        if k == "ret":
+            out.append(n)
+        if k == "break" and not nested:
+            out.append(n)
+        for c in children(n):
+            go(c, nested or k == "loop")
+
+    for b in body_nodes:
+        go(b, False)
+    return out
